@@ -318,6 +318,15 @@ func (b *ShelleyTransactionBody) UnmarshalCBOR(cborData []byte) error {
 	return nil
 }
 
+func (b *ShelleyTransactionBody) MarshalCBOR() ([]byte, error) {
+	// Return the original CBOR if available so that re-encoding a decoded
+	// object reproduces the exact bytes it was decoded from
+	if b.Cbor() != nil {
+		return b.Cbor(), nil
+	}
+	return cbor.EncodeGeneric(b)
+}
+
 func (b *ShelleyTransactionBody) Inputs() []common.TransactionInput {
 	items := b.TxInputs.Items()
 	ret := make([]common.TransactionInput, len(items))
